@@ -193,8 +193,16 @@ func c11Commands(c *Ctx) {
 		}
 		text := c11Text(c.R, []int{0, 1, e - 1, e, e + 1, 2*e + 3, c.R.N(4 * e)}[c.R.N(7)])
 		cfg := client.NewConfig("me")
-		cfg.SplitLen = n
-		conn := client.Client(cfg)
+		// Config() hands out the live configuration: SplitLen set before Client() or changed through Config() afterwards
+		// (a bot reconfigured at run time) is the value the next call splits by
+		var conn *client.Conn
+		if i%2 == 0 {
+			cfg.SplitLen = n
+			conn = client.Client(cfg)
+		} else {
+			conn = client.Client(cfg)
+			conn.Config().SplitLen = n
+		}
 		a := []string{target, text}
 		var v []string
 		enc := []string{drv.H(target), drv.H(text)}
